@@ -130,7 +130,7 @@ func both(t fataler, a, p *opclient.Client, line string) opclient.Reply {
 	return ra
 }
 
-var crossOps = append(append([]string{}, opgen.SecretOps...), opgen.PublicOps...)
+var crossOps = append(append(append([]string{}, opgen.SecretOps...), opgen.PublicOps...), "faulted", "faulted", "faulted")
 
 func propCross(t *rapid.T) {
 	a, p := servers(t)
